@@ -227,7 +227,8 @@ func (p c20) run(c *core.C, t *core.T, cs c20Case) {
 	plain := func(n string) bool { return !strings.ContainsAny(n, "/") && n != "." && n != ".." } // (a name that designates a directory is not a file name)
 	for _, n := range cs.Names {
 		if plain(n) && n != ctlName {
-			write(filepath.Join(src, n), r.Range(0, 400))
+			// (now and then a size at a block boundary of copy loops: 32 KiB, 64 KiB, one less, one more)
+			write(filepath.Join(src, n), r.Pick3(r.Range(0, 400), r.Range(0, 400), 32768, 65536, 32767, 32769, 4096))
 		}
 	}
 	// faults
@@ -738,6 +739,14 @@ func (p c20) RunBatch(t *core.T, b core.Batch) {
 				sn2[0] = r.Pick([]string{"./", ".//", "sub/../"}) + self
 				emit(c20Case{Op: op, Handle: h, Names: sn2, Fault: "none", Seed: r.U64()})
 				emit(c20Case{Op: op, Handle: h, Names: sn2, Fault: fmt.Sprintf("missing-source:%d", len(sn2)-1), Seed: r.U64()})
+				// ... and as the last or a middle entry
+				plainN := plainNames(r, r.Range(1, 3))
+				sn3 := append(append([]string{}, plainN...), self)
+				emit(c20Case{Op: op, Handle: h, Names: sn3, Fault: "none", Seed: r.U64()})
+				if len(plainN) >= 2 {
+					sn4 := append(append(append([]string{}, plainN[:1]...), self), plainN[1:]...)
+					emit(c20Case{Op: op, Handle: h, Names: sn4, Fault: "none", Seed: r.U64()})
+				}
 			}
 		case "sequence":
 			first := []string{"Copy", "Move"}[i%2]
